@@ -53,6 +53,14 @@ ldb_ikey_t g_bk, g_ek; ldb_vector_t g_inputs;     /* ver.inputs.*: begin / end i
 size_t g_lo_r, g_hi_r;                   /* user ranks of the requested bounds                                  */
 size_t g_xb, g_xe;                       /* mirror of the current (expanded) range                              */
 const uint8_t *g_xb_tok, *g_xe_tok;      /* whose key the current bound is a copy of                            */
+/* ver.boundary.*: */
+ldb_filemeta_t g_fc, g_fcj;              /* compaction-set list: its first-maximum file, an arbitrary second file   */
+const ldb_vector_t *g_cfiles; size_t g_cn, g_ck, g_cj;   /* that list, its length, positions of g_fc / g_fcj           */
+ldb_slice_t g_out;                       /* find_largest_key result                                                */
+size_t g_kuk; uint64_t g_ktag;           /* ranks of the probe key of find_smallest_boundary_file                   */
+int g_world_fixed;                       /* 1: the caller fixed the boundary witness (g_k, g_fk); 0: the contract picks it */
+ldb_vector_t g_cfv; int g_store_unbounded;
+size_t g_ca; void *g_caval;              /* an arbitrary position of the given compaction set and what it held      */
 
 #define TOK_KS (g_tok + 0)
 #define TOK_KL (g_tok + 1)
@@ -98,7 +106,8 @@ int m_icmp(const ldb_comparator_t *c, const ldb_slice_t *x, const ldb_slice_t *y
   g_last_res = sign3(LT_(x->size - 8, x->alloc, y->size - 8, y->alloc), LT_(y->size - 8, y->alloc, x->size - 8, x->alloc));
   return g_last_res;
 }
-static void push_other_hook(void);   /* unit-specific obligation on an untracked file that is appended */
+static void push_other_hook(void);
+static void push_hook(const void *x);   /* unit-specific bookkeeping on every append */   /* unit-specific obligation on an untracked file that is appended */
 /* dbformat.c is not linked: internal keys built by the code under test are built in the rank representation */
 void ldb_ikey_init(ldb_ikey_t *ikey) { ikey->data = NULL; ikey->size = 0; ikey->alloc = 0; }
 void ldb_ikey_set(ldb_ikey_t *ikey, const ldb_slice_t *user_key, uint64_t sequence, ldb_valtype_t type) {
@@ -124,12 +133,13 @@ void ldb_vector_clear(ldb_vector_t *z) {
 void ldb_vector_grow(ldb_vector_t *z, size_t zn) { __CPROVER_assert(z == g_vec && zn <= z->alloc, "vector model: preallocated storage is large enough"); }
 void ldb_vector_push(ldb_vector_t *z, const void *x) {
   __CPROVER_assert(z == g_vec, "files are appended to the caller's result vector only");
-  __CPROVER_assert(z->length < z->alloc, "vector model: at most one append per file of the list");
+  __CPROVER_assert(g_store_unbounded || z->length < z->alloc, "vector model: at most one append per file of the list");
   __CPROVER_assert(x == (const void *)&g_fk || x == (const void *)&g_fj || x == (const void *)&g_fo, "only files of the list are appended");
   if (x == (const void *)&g_fk) { g_pk++; g_posk = z->length; }
   else if (x == (const void *)&g_fj) { g_pj++; g_posj = z->length; }
   else push_other_hook();
-  z->items[z->length++] = (void *)x;
+  push_hook(x);
+  if (g_store_unbounded) z->length++; else z->items[z->length++] = (void *)x;
   g_pushes++;
 }
 
@@ -153,6 +163,7 @@ static void mk_world(void) {
   g_ver.files[4] = g_ver.files[0]; g_ver.files[5] = g_ver.files[0]; g_ver.files[6] = g_ver.files[0];
   mk_file(&g_fk, TOK_KS, TOK_KL); mk_file(&g_fj, TOK_JS, TOK_JL); mk_file(&g_fo, TOK_OS, TOK_OL);
   g_ucalls = 0; g_icalls = 0; g_last_x = NULL; g_last_y = NULL; g_last_xsize = 0; g_last_res = 0;
+  g_store_unbounded = 0; g_world_fixed = 1;
   g_store = NULL; g_store_cap = 0; g_inits = 0; g_clears = 0;
   g_vec = NULL; g_pk = 0; g_pj = 0; g_posk = 0; g_posj = 0; g_pushes = 0; g_resets = 0;
   (void)l;
